@@ -135,12 +135,25 @@ def check_entryid(rep, prog, fm):
     C = calls[0]
     g = conj(fm.norm(C.guard))
     want = norm_id(fm, "pelID")
-    ok = any(isinstance(c, Op) and c.op == "in" and c.args[0] == want and any(isinstance(x, Op) and x.op == "elem" for x in walk(c.args[1])) for c in g)
-    rep.check(ok, rule, "--id displays a file whose name contains the normalised entry id", q, C.node,
-              "--id does not select the file by 'normalised id in file name'", node=C.node)
-    L = C.loops[-1] if C.loops else None
-    brks = [e for e in fm.events if e.kind == "break" and q in e.stack and L is not None and e.loops and e.loops[-1] is L and e.seq > C.seq]
-    rep.check(bool(brks), rule, "--id stops after the first match", q, C.node, "--id keeps displaying further files after the first match", node=C.node)
+    from .c11 import walk_elem_parts, conj_terms
+    parts = walk_elem_parts(fm, fm.norm(C.data[1][0]))
+    if parts is not None and parts[0] == "first":
+        # the file is found by a first-match scan (helper returning from inside its loop / next()) and displayed after it
+        _, w, lid, cond, fname, ex = parts
+        cnd = fm.norm(cond) if cond is not None else None
+        ok = cnd is not None and any(isinstance(c, Op) and c.op == "in" and c.args[0] == want and c.args[1] == fname for c in conj_terms(cnd)) \
+            and (ex is None or implies(fm.norm(C.guard), ex)[0])
+        rep.check(ok, rule, "--id displays a file whose name contains the normalised entry id", q, C.node,
+                  "--id does not select the file by 'normalised id in file name'", node=C.node)
+        once = not any(fm.norm(L.iter) == fname.args[0] for L in C.loops)
+        rep.check(once, rule, "--id stops after the first match", q, C.node, "--id keeps displaying further files after the first match", node=C.node)
+    else:
+        ok = any(isinstance(c, Op) and c.op == "in" and c.args[0] == want and any(isinstance(x, Op) and x.op == "elem" for x in walk(c.args[1])) for c in g)
+        rep.check(ok, rule, "--id displays a file whose name contains the normalised entry id", q, C.node,
+                  "--id does not select the file by 'normalised id in file name'", node=C.node)
+        L = C.loops[-1] if C.loops else None
+        brks = [e for e in fm.events if e.kind == "break" and q in e.stack and L is not None and e.loops and e.loops[-1] is L and e.seq > C.seq]
+        rep.check(bool(brks), rule, "--id stops after the first match", q, C.node, "--id keeps displaying further files after the first match", node=C.node)
     nf = [e for e in fm.events if is_stdout_print(e) and q in e.stack and e.data[0] and e.data[0][0] == Const("PEL not found")]
     rep.check(len(nf) == 1, rule, "'PEL not found' when no file name contains the id", q, "print('PEL not found')", "'PEL not found' message missing")
 
